@@ -91,6 +91,14 @@ class UnknownClassException(MetaModelException):
         MetaModelException.__init__(self, 'Unknown class %s' % kind)
 
 
+def _is_reserved(name):
+    '''
+    Determine if a *name* is one of those python reserves for its own use,
+    e.g. __class__ or __init__, and thus not available to attributes.
+    '''
+    return len(name) > 4 and name.startswith('__') and name.endswith('__')
+
+
 def _is_null(instance, name):
     '''
     Determine if an attribute of an *instance* with a specific *name* 
@@ -1181,6 +1189,9 @@ class MetaModel(object):
         metaclass = MetaClass(kind, self)
         unames = set()
         for name, ty in attributes:
+            if _is_reserved(name):
+                raise MetaModelException('The attribute name %s.%s is reserved by python' % (kind, name))
+            
             if name.upper() in unames:
                 raise MetaModelException('The class %s has several attributes named %s' % (kind, name))
             
@@ -1243,6 +1254,10 @@ class MetaModel(object):
         source_metaclass = self.find_metaclass(source_kind)
         target_metaclass = self.find_metaclass(target_kind)
 
+        for name in source_keys:
+            if _is_reserved(name):
+                raise MetaModelException('The attribute name %s.%s is reserved by python' % (source_kind, name))
+        
         if len(source_keys) != len(target_keys):
             raise MetaModelException('%s has %d referential but %d identifying '
                                      'attributes' % (rel_id, len(source_keys),
